@@ -169,7 +169,7 @@ def check_case(ref, prefs, owners, case):
         if type(e).__name__ == "ResolvaException":
             sig += "/desynchronised-repeated-field"
         return [dict(signature=sig, observed=repr(e)[:200], expected="untyped Sid")], "exception"
-    owner = owners.get((c, p))
+    owner = owners.get((c or [pr.default for pr in prefs.values()][0], p))
     if x:
         try:
             back = x.path(c)
@@ -290,6 +290,13 @@ def run_shard(sh):
         p = encode(prefs, p)
         if not rec.mine(c + "|" + p):
             continue
+        # the same path with the configuration argument left out: the default configuration is the one asked, no other one
+        if rec.mine("<default>|" + p):
+            for order in ("cold", "after-other"):
+                viols, cls = check_case(ref, prefs, owners, [p, None, order])
+                rec.case(cls + "/no-config-argument/" + order, True, sample=[p, None, order])
+                for v in viols:
+                    rec.violation(v["signature"] + "/no-config-argument", "path", [p, None, order, sh.get("first")], v["observed"], v["expected"])
         for order in ("cold", "after-other", "after-string-sid"):
             if order == "after-string-sid" and not any(ch in p for ch in "?:"):
                 continue        # string and fields denote the same Sid: nothing another Sid could have answered
@@ -315,7 +322,10 @@ def replay_case(kind, case):
     if len(case) > 3:
         touch_first(case[3])
     ref, prefs, owners, bases, names = setup("thorough")
-    return check_case(ref, prefs, owners, case[:3])[0]
+    v = check_case(ref, prefs, owners, case[:3])[0]
+    if case[1] is None:
+        v = [dict(x, signature=x["signature"] + "/no-config-argument") for x in v]
+    return v
 
 
 def coverage(m, tier, seed):
